@@ -537,6 +537,11 @@ func expandRequestData(testCase *conformancev1.TestCase) error {
 				padding := make([]byte, delta)
 				bytesVal = append(bytesVal, padding...)
 			} else {
+				if int64(len(bytesVal))+delta < 0 {
+					// Even removing all of the request data leaves the message too large.
+					return fmt.Errorf("request message #%d: can't pad to exactly %d bytes; request data has only %d bytes but would have to shrink by %d",
+						i+1, totalSize, len(bytesVal), -delta)
+				}
 				bytesVal = bytesVal[:len(bytesVal)+int(delta)]
 			}
 			reflectReq.Set(field, protoreflect.ValueOfBytes(bytesVal))
